@@ -44,6 +44,7 @@ type Task struct {
 type RunConfig struct {
 	StepCap   int           // max scheduling steps (0 = 200000)
 	Horizon   time.Duration // max simulated time for the whole run (0 = 2h)
+	NoStall   bool          // never let simulated time pass while tasks are runnable
 	Grace     time.Duration // simulated time the world is left alone after main ends (0 = 2min)
 	KeepTrace bool          // keep the event log lines (replay / samples)
 }
@@ -106,6 +107,7 @@ type World struct {
 	lastSite string // schedule point of the task released last
 	sameSite int    // consecutive releases of the same task at the same point
 	spins    int    // times the spin breaker let simulated time pass
+	stalls   int    // times simulated time passed while tasks were runnable
 }
 
 const fnvOff = 14695981039346656037
@@ -391,7 +393,22 @@ func (w *World) loop(horizon *time.Timer) {
 				}
 			}
 		}
-		idx := w.Tape.ChooseSched(len(run))
+		idx, extra := w.Tape.ChooseSchedX(len(run))
+		if idx != 0 && extra%8 == 1 && !w.cfg.NoStall {
+			// the task that ran last is pre-empted and nobody runs for a while (a loaded machine, a stalled process):
+			// simulated time passes although tasks are runnable, so timers and deadlines fire in the middle of operations
+			d := []time.Duration{time.Millisecond, 3 * time.Millisecond, 10 * time.Millisecond, 40 * time.Millisecond}[(extra/8)%4]
+			w.mu.Lock()
+			w.stalls++
+			w.faults["stall-while-runnable"]++
+			w.hash = fnv(w.hash, "stall "+d.String())
+			if w.cfg.KeepTrace {
+				w.trace = append(w.trace, fmt.Sprintf("[%d t=%v] stall %v (nobody runs; %d runnable)", w.step, time.Since(w.start), d, len(run)))
+			}
+			w.mu.Unlock()
+			time.Sleep(d)
+			continue
+		}
 		t := run[idx]
 		if idx != 0 && len(run) > 1 {
 			w.preempt++
@@ -412,6 +429,7 @@ func (w *World) loop(horizon *time.Timer) {
 			if w.sameSite >= 3000 {
 				w.sameSite = 0
 				w.spins++
+				w.faults["spin-breaker"]++
 				w.mu.Unlock()
 				time.Sleep(time.Second)
 				w.mu.Lock()
